@@ -490,4 +490,91 @@ theorem viewAsComplex_isSome_iff (t : Tensor R) : (viewAsComplex t).isSome = tru
 
 end Views
 
+/-! ## `modulus` / `root_sum_of_squares` on the real layout `(…, 2)` are the complex-level `modSq` / `rssSqT` -/
+section RealLayout
+variable {R : Type} [Add R] [Mul R] [Zero R] [Inhabited R]
+
+omit [Add R] [Mul R] [Zero R] [Inhabited R] in
+theorem pairs_length (D : List R) (n : Nat) (h : D.length = 2 * n) : (pairs D).length = n := by
+  induction n generalizing D with
+  | zero =>
+    have : D = [] := List.length_eq_zero_iff.mp (by omega)
+    subst this; rfl
+  | succ n ih =>
+    match D, h with
+    | a :: b :: rest, h =>
+      have hr : rest.length = 2 * n := by simp at h; omega
+      show (pairs rest).length + 1 = n + 1
+      rw [ih rest hr]
+
+omit [Add R] [Mul R] [Zero R] in
+theorem pairs_getD (D : List R) (o : Nat) (h : 2 * o + 1 < D.length) :
+    (pairs D).getD o default = ⟨D.getD (2 * o) default, D.getD (2 * o + 1) default⟩ := by
+  induction o generalizing D with
+  | zero =>
+    match D, h with
+    | a :: b :: rest, _ => rfl
+  | succ o ih =>
+    match D, h with
+    | a :: b :: rest, h =>
+      have hr : 2 * o + 1 < rest.length := by simp at h; omega
+      show (pairs rest).getD o default = _
+      rw [ih rest hr]
+      have e1 : 2 * (o + 1) = (2 * o) + 1 + 1 := by omega
+      rw [e1]
+      simp
+
+/-- `(data ** 2).sum(-1)` on a well-formed `(…, 2)` tensor is `modSq` of the complex entries
+(`add_zero`: the only law of the scalars that is used — `List.sum` ends in `+ 0`) -/
+theorem modSqAxis_last (t : Tensor R) (z : Tensor (Cpx R)) (h : viewAsComplex t = some z)
+    (w : t.data.length = prod t.shape) (add_zero : ∀ b : R, b + 0 = b) :
+    modSqAxis t (-1) = modSqT z := by
+  unfold viewAsComplex at h
+  split at h
+  · rename_i h2
+    injection h with h; subst h
+    obtain ⟨ys, hys⟩ := List.getLast?_eq_some_iff.mp h2
+    have hl : t.data.length = 2 * prod ys := by
+      rw [w, hys, prod_append, prod_cons, prod_nil, Nat.mul_one, Nat.mul_comm]
+    have hsh : (mapT (fun x => x * x) t).shape = ys ++ [2] ++ [] := by simp [mapT, hys]
+    have hd : normAxis (ys.length + 1 + ([] : List Nat).length) (-1) = ys.length := by
+      unfold normAxis; simp; omega
+    obtain ⟨h1, h2', h3⟩ := sumAxis_spec (mapT (fun x => x * x) t) ys [] 2 (-1) hsh hd
+    unfold modSqAxis modSqT mapT at *
+    have hshape : (sumAxis ⟨t.shape, t.data.map fun x => x * x⟩ (-1)).shape = t.shape.dropLast := by
+      rw [h1, hys, List.dropLast_concat, List.append_nil]
+    have hdata : (sumAxis ⟨t.shape, t.data.map fun x => x * x⟩ (-1)).data = (pairs t.data).map modSq := by
+      apply ext_getD _ _ default
+      · rw [h2', prod_nil, Nat.mul_one, List.length_map, pairs_length _ _ hl]
+      · intro o ho
+        rw [h2', prod_nil, Nat.mul_one] at ho
+        have := h3 o 0 ho (by simp [prod_nil])
+        rw [prod_nil, Nat.mul_one, Nat.add_zero] at this
+        rw [this]
+        have hb : 2 * o + 1 < t.data.length := by omega
+        have hb0 : 2 * o < t.data.length := by omega
+        have hp : o < (pairs t.data).length := by rw [pairs_length _ _ hl]; exact ho
+        simp only [fibre, List.getD_eq_getElem?_getD, List.getElem?_map, List.getElem?_eq_getElem hp, Option.map_some,
+          Option.getD_some]
+        have hpg := pairs_getD t.data o hb
+        rw [List.getD_eq_getElem?_getD, List.getElem?_eq_getElem hp, Option.getD_some] at hpg
+        rw [hpg]
+        simp [List.range_succ, modSq, List.getElem?_eq_getElem hb, List.getElem?_eq_getElem hb0, Nat.mul_comm o 2, add_zero]
+    show sumAxis ⟨t.shape, t.data.map fun x => x * x⟩ (-1) = ⟨t.shape.dropLast, (pairs t.data).map modSq⟩
+    rw [← hshape, ← hdata]
+  · simp at h
+
+/-- `root_sum_of_squares(data, dim)²` on the real layout (what the driver's `rss` op runs) is the complex-level `rssSqT` -/
+theorem rssSqReal_eq_rssSqT (t : Tensor R) (z : Tensor (Cpx R)) (h : viewAsComplex t = some z)
+    (w : t.data.length = prod t.shape) (add_zero : ∀ b : R, b + 0 = b) (dim : Int) :
+    rssSqReal t dim (-1) = rssSqT z dim := by
+  have hl : t.shape.getLast? = some 2 := (viewAsComplex_isSome_iff t).mp (by rw [h]; rfl)
+  have := modSqAxis_last t z h w add_zero
+  unfold rssSqReal rssSqT
+  rw [if_pos hl]
+  unfold modSqAxis at this
+  rw [this]
+
+end RealLayout
+
 end DirectVerif.C02T
